@@ -302,6 +302,9 @@ func runConnCase(c connCase) string {
 			r.pc.mu.Lock()
 			r.pc.wfail = true
 			r.pc.mu.Unlock()
+		case 'z': // z<ms>: wall-clock time passes (timers the server armed may fire)
+			ms, _ := strconv.Atoi(op[1:])
+			time.Sleep(time.Duration(ms) * time.Millisecond)
 		case 's': // the client stops reading; s<n>: n more bytes fit into the socket buffers
 			n, _ := strconv.Atoi(op[1:])
 			r.pc.stallWrites(n)
